@@ -29,7 +29,6 @@ PHASES_BY_KIND = {
     "sock_connect": ("tcp-connect", "tls"),
     "sock_read": ("head", "body"),
 }
-WRITTEN_PHASES = ("send-body", "head", "body")
 
 SIMPLE = b"HTTP/1.1 200 OK\r\nX-Rid: T\r\nTransfer-Encoding: chunked\r\n\r\n5\r\nhello\r\n10;e=1\r\n0123456789abcdef\r\n0\r\n\r\n"
 SIMPLE_BODY = b"hello0123456789abcdef"
@@ -75,6 +74,14 @@ def frame_response(framing, body):
     else:
         raise ValueError(framing)
     return b"\r\n".join(lines) + b"\r\n\r\n", wire, closes
+
+
+def big_body(spec):
+    if spec is None:
+        return BODY
+    if "zeros" in spec:
+        return b"\0" * spec["zeros"]
+    return b"0123456789abcde\n" * spec["lines"]
 
 
 def framing_class(framing):
@@ -176,7 +183,7 @@ class CW:
         self.gate_calls = {}
         self.sib_task = None
         body = case.get("body")
-        self.body = BODY if body is None else (b"\0" * body["zeros"])
+        self.body = big_body(body)
         self.final = frame_response(case.get("framing", "chunked"), self.body)
         if case.get("interim"):
             self.final = (INTERIM + self.final[0],) + self.final[1:]
@@ -738,6 +745,19 @@ def framing_cells(tier):
                 if (rot + i) % 5 == 0 and k >= 2:
                     case["dribble"] = 2
                 cells.append(case)
+            rot += 1
+    # large bodies: the client pauses reading (buffer above its high-water mark), the consumer drains it, reading
+    # resumes, and then the peer stalls
+    big = {"lines": 6250}
+    for fr in ("cl", "chunked", "eof", "gzip-cl", "gzip-chunked"):
+        n = len(frame_response(fr, big_body(big))[1])
+        for frac in (0.1, 0.7, 0.999):
+            for i, cons in enumerate(CONSUMERS):
+                if tier == "quick" and (i + rot) % 3:
+                    continue
+                for cf in ({"sock_read": 3.0}, {"sock_read": 7.0}, {"total": 3.0}, {"total": 7.0, "sock_read": 0.5}):
+                    cells.append({"mode": "chain", "conn": "mem", "trans": [], "stall": [0, "body", int(n * frac)], "tmo": dict(cf), "framing": fr,
+                                  "consumer": cons, "body": dict(big)})
             rot += 1
     return cells
 
